@@ -55,7 +55,15 @@ pub fn expect_payload(payload: &[u8], p: Props, dict: u64, size: Option<u64>, me
     let (mut v, mut class, mut consumed) = match r.end {
         End::SizeReached => {
             if Some(produced) == size {
-                (Exp::Ok, "size".to_string(), Some(r.consumed))
+                if r.final_clean {
+                    (Exp::Ok, "size".to_string(), Some(r.consumed))
+                } else {
+                    // the size is reached but the coder is not at rest (more symbols or a marker follow in the same
+                    // range-coded stream): lzma-rs stops and succeeds, a decoder that insists on a finished coder
+                    // (liblzma) refuses - no listed property decides; a complete payload followed by unrelated bytes
+                    // (C11) always ends with the coder at rest
+                    (Exp::Any, "size-reached-coder-not-at-rest".to_string(), None)
+                }
             } else {
                 (Exp::Err, "overshoot".to_string(), None)
             }
